@@ -107,7 +107,11 @@ def check_model(system):
         if o.fullName() != key:
             fails.append({'observed': f'registry key {key!r} holds an object whose qualified name is {o.fullName()!r}',
                           'required': 'every object is registered under exactly its current qualified name',
-                          'class': 'stale-key', 'nested_duplicate': bool(re.search(r' \d+\.', o.fullName()) or re.search(r' \d+\.', key))})
+                          'class': 'stale-key', 'nested_duplicate': bool(re.search(r' \d+\.', o.fullName()) or re.search(r' \d+\.', key)),
+                          # a displaced duplicate (name '<n> <i>') still registered below the old location of its container, which was moved
+                          'displaced_in_moved': bool(re.fullmatch(r'.+ \d+', o.name)) and key.rsplit('.', 1)[-1] == o.name
+                          and not re.search(r' \d+\.', key) and o.parent is not None and system.allobjects.get(o.parent.fullName()) is o.parent
+                          and key.rsplit('.', 1)[0] != o.parent.fullName()})
             continue
         p = o.parent
         if p is None:
